@@ -37,9 +37,10 @@ META = {
             "recorded in another live session and replayed verbatim}, gssapi-with-mic request / token / MIC and "
             "gssapi-keyex (stub GSS context; MIC valid / invalid / no context), unknown method, service request, "
             "pipelined bursts; the server application's answer for each packet ranges over SUCCESSFUL / "
-            "PARTIALLY_SUCCESSFUL / FAILED (/ InteractiveQuery). Three configurations: shipped dispatch; "
+            "PARTIALLY_SUCCESSFUL / FAILED (/ InteractiveQuery). Four configurations: shipped dispatch; "
             "gssapi-with-mic handlers bound by the harness (reaches the anchored _parse_userauth_gssapi_mic, "
-            "which the shipped dispatch cannot: it dies in a TypeError); GSSAPI disabled.",
+            "which the shipped dispatch cannot: it dies in a TypeError); GSSAPI disabled; no SERVICE_REQUEST "
+            "before the first USERAUTH_REQUEST (reduced alphabet, length <=2/3).",
     "note": "server side is unmodified paramiko; client packets are harness-composed; GSS library replaced by a "
             "stub context (keyed hash over the RFC 4462 MIC fields); one username; username switching and the "
             "failure cap are C16's",
@@ -54,6 +55,8 @@ CFGS = {
     "shipped": {"gss": True, "gss_dispatch": "shipped"},
     "gss-bound": {"gss": True, "gss_dispatch": "bound"},
     "gss-off": {"gss": False, "gss_dispatch": "shipped"},
+    # the client never sends SERVICE_REQUEST "ssh-userauth" and starts with USERAUTH_REQUEST right away
+    "no-service-request": {"gss": True, "gss_dispatch": "shipped", "service_request": False},
 }
 CALLBACK_FOR = {
     "none": {"auth_none"}, "password": {"auth_password"}, "publickey": {"auth_publickey"},
@@ -98,6 +101,13 @@ def alphabet(tier, cfg):
             ("burst", (("req", AL, SC, "password", "plain", "F"), ("req", AL, SC, "password", "plain", "S"))),
             ("burst", (("req", AL, SC, "keyboard-interactive", "-", "Q"), ("iresp", "F"))),
         ]
+    elif cfg == "no-service-request":
+        ed = "ed25519/ssh-ed25519/"
+        evs += [("req", AL, SC, "none", "-", app) for app in "SF"]
+        evs += [("req", AL, SC, "password", "plain", app) for app in "SPF"]
+        evs += [("req", AL, SC, "publickey", ed + sv, "S") for sv in R.SIG_VARIANTS]
+        evs += [("req", AL, SC, "keyboard-interactive", "-", "Q"), ("iresp", "S"), ("iresp", "F")]
+        evs += [("req", AL, SC, "gssapi-keyex", "ctx/invalid", "S"), ("svc", "ssh-userauth")]
     else:
         # the keyex branch does not depend on the dispatch of the temporary handler: shipped + gss-off only
         evs += gss_events(keyex=(cfg == "gss-off"))
@@ -115,8 +125,8 @@ DEAD_PROBES = [("req", AL, SC, "password", "plain", "S"), ("iresp", "S"),
 
 def depth_for(tier, cfg):
     if tier == "quick":
-        return {"shipped": 2, "gss-bound": 4, "gss-off": 2}[cfg]
-    return {"shipped": 14, "gss-bound": 14, "gss-off": 14}[cfg]
+        return {"shipped": 2, "gss-bound": 4, "gss-off": 2, "no-service-request": 2}[cfg]
+    return {"shipped": 14, "gss-bound": 14, "gss-off": 14, "no-service-request": 3}[cfg]
 
 
 # canon: merged states have equal futures because the server-side handlers branch only on these
@@ -265,7 +275,8 @@ def make_run(cfg):
     kw = CFGS[cfg]
 
     def run(hist):
-        return A.run_history(hist, gss=kw["gss"], gss_dispatch=kw["gss_dispatch"])
+        return A.run_history(hist, gss=kw["gss"], gss_dispatch=kw["gss_dispatch"],
+                             service_request=kw.get("service_request", True))
     return run
 
 
@@ -291,7 +302,7 @@ def main(tier):
          "client side only transports harness-composed packets", "one username (alice); C16 covers switching",
          "event mode: the server reacts completely to one packet (or one pipelined burst) before the next"])
     summary = {}
-    for cfg in ("shipped", "gss-bound", "gss-off"):
+    for cfg in ("shipped", "gss-bound", "gss-off", "no-service-request"):
         out, acc = A.pbfs(make_run(cfg), make_enabled(tier, cfg), canon, judge_factory(cfg),
                           depth_for(tier, cfg))
         ck.merge(acc)
@@ -302,7 +313,7 @@ def main(tier):
                         "depth_reached": out.max_depth, "states": out.states,
                         "transitions": out.transitions, "frontier_left_at_bound": out.frontier_left,
                         "closed": out.frontier_left == 0, "levels": out.levels}
-        if out.frontier_left and tier == "thorough":
+        if out.frontier_left and tier == "thorough" and cfg != "no-service-request":
             ck.cap_hit("%s: depth bound %d reached with %d unexpanded states"
                        % (cfg, depth_for(tier, cfg), out.frontier_left))
     ck.extra["bound"] = summary
